@@ -235,11 +235,36 @@ def c18_5(ctx):
     ctx.note("attribute paths checked: %d" % n)
 
 
+# ------------------------------------------------------------------ C18.6
+def c18_6(ctx):
+    """what a parser returns re-serialises to text of its own kind: the wallet writes the E: form its parsers read;
+    a public pair is accepted only with coordinates that are field elements (shared with C02.7)"""
+    EL = "pycoin/key/electrum.py"
+    c = ctx.p.cls(EL, "ElectrumWallet")
+    m = c.methods.get("as_text")
+    if m is None:
+        ctx.bad("electrum-text-form", "%s:%d" % (EL, c.node.lineno), "ElectrumWallet inherits Key.as_text (a WIF / SEC text): parse.electrum_*(t).as_text() parses back to a plain key, not to the wallet")
+    else:
+        f = ctx.func(EL, "ElectrumWallet.as_text")
+        w = sym.walk(ctx, f)
+        rets = [e for e in w.exits if e.kind in ("return", "fall")]
+        for e in rets:
+            t = norm(e.value) if e.value is not None else "None"
+            ctx.check(t.startswith("'E:' + ") or t.startswith('"E:" + '), "electrum-text-form", ctx.where(f, e.node), "ElectrumWallet.as_text returns `%s`; the electrum parsers read `E:<hex>`" % t[:80], sample={"returns": t[:80]})
+        blob = ctx.func(PARSE, "ParseAPI._electrum_to_blob")
+        wb = sym.walk(ctx, blob)
+        ctx.check(any("'E'" in str(o) or "'E:'" in str(o) for e in wb.exits for o in (gi.f_opaques(e.cond) if e.cond not in (True, False) else [])), "electrum-prefix-read", ctx.where(blob),
+                  "ParseAPI._electrum_to_blob no longer tests for the E: prefix the wallet writes")
+    from rules import C02
+    C02.c02_7(ctx)
+
+
 OBLIGATIONS = [
     Ob("C18.1", "exception escape of all parse entry points (ParseAPI + GRSParseAPI) is empty modulo the tabulated infeasible pairs", c18_1, floor=36, engines="EX,PM",
        breaks_if="checksummed WIF with exponent 0 / >= n; short extended key; x without curve point; electrum blobs"),
     Ob("C18.2", "the decode cache swallows every Exception; cache keys identify one decoder", c18_2, floor=7, engines="SYM,TB", breaks_if="bech32 strings with empty data part; one string parsed on BTC then GRS"),
     Ob("C18.3", "payload-length guards keep kinds apart: extended key 78, WIF 32/33, address 20", c18_3, floor=15, engines="SYM,GI", breaks_if="POLIS (WIF prefix == P2SH prefix)"),
     Ob("C18.4", "the prefix an object's text form writes is the one its parser compares with", c18_4, floor=6, engines="SYM"),
+    Ob("C18.6", "text forms are read by the parser of their own kind: ElectrumWallet writes E:<hex>; public pairs need field-element coordinates", c18_6, floor=4, engines="SYM,GI", breaks_if="'<p+1>/even'; parse.electrum_seed(t).as_text()"),
     Ob("C18.5", "every network.<ns>.<name> path used by the API classes is provided by create_bitcoinish_network", c18_5, floor=30, engines="PM,TB", breaks_if="parse.hd_seed('P:foo')"),
 ]
